@@ -1,10 +1,16 @@
-"""C18: spec/Gateway.tla model-checked by TLC; TLC behaviours replayed into the real JobRouter / handlers."""
+"""C18: spec/Gateway.tla model-checked by TLC; TLC behaviours replayed into the real JobRouter / handlers.  The "keeps the newest"
+rule is in addition proved inductive for EVERY natural time stamp and every value on the skeleton spec/GatewayNewest.tla
+(Apalache), which spec/Gateway.tla refines (TLC, property NewestRefines of the same run)."""
 from __future__ import annotations
 
 import json
 import logging
+import re
+import shutil
 import subprocess
 import sys
+import time
+from concurrent.futures import ThreadPoolExecutor
 
 from .. import tlc
 from ..common import ROOT, MachineryError
@@ -20,7 +26,72 @@ def _listfile(paths):
     f.close()
     return "@" + f.name
 
-INV = ["TypeOK", "ProgressIsNewest", "ResultsExact", "AnswersFaithful"]
+INV = ["TypeOK", "ProgressIsNewest", "ResultsExact", "AnswersFaithful", "NewestInv"]
+# refinement: Gateway.tla implements the unbounded skeleton spec/GatewayNewest.tla (stamps 1..k for Nat, initial last_seen 0 for -1)
+MC_REFINE = """---- MODULE MC ----
+EXTENDS Gateway
+Newest == INSTANCE GatewayNewest WITH Job <- J, Stamp <- TS, Before <- 0, Val <- {ProgOf(t) : t \\in TS}, Started <- Started,
+            StoresLastSeen <- StoresLastSeen, nprog <- progress, nlast <- lastSeen,
+            nseen <- [j \\in J |-> {[ts |-> t, val |-> ProgOf(t)] : t \\in seenTs[j]}]
+NewestRefines == Newest!NSpec
+NewestInv == Newest!NIndInv /\\ Newest!ShowsNewest
+\\* the model check hides `last` behind a VIEW, so a frontend answer never makes a NEW state and an invariant would not look at it:
+\\* the faithfulness of every answer is therefore (also) demanded of every transition
+AnswersStep == [][AnswersFaithful']_vars
+====
+"""
+# the skeleton as the code was before fix 72e2b3d (last_seen never written) must NOT be inductive (the proof is not vacuous)
+APA_STEP = ["--init=IndInit", "--next=NNext", "--inv=Goal", "--length=1"]
+
+
+def _apalache(d, args, timeout=900):
+    p = subprocess.run(["apalache-mc", "check", *args, f"--out-dir={d}/out", "MC_GatewayNewest.tla"], cwd=d, stdout=subprocess.PIPE,
+                       stderr=subprocess.STDOUT, text=True, timeout=timeout)
+    out = p.stdout
+    if "The outcome is: NoError" in out:
+        return True, out
+    if re.search(r"The outcome is: Error|Found \d+ error|invariant .* violated", out):
+        return False, out
+    raise MachineryError("apalache did not reach a verdict:\n" + out[-1500:])
+
+
+def inductive(ctx) -> None:
+    """Init => NIndInv; NIndInv /\\ NNext => NIndInv' /\\ ShowsNewest', for every stamp in Nat and every integer value."""
+    if shutil.which("apalache-mc") is None:
+        raise MachineryError("apalache-mc not on PATH")
+    t0 = time.time()
+    bound = 3 if ctx.quick else 5
+    jobs = {"base": ["--cinit=ConstInitT", "--init=NInit", "--next=NNext", "--inv=Goal", "--length=0"],
+            "step": ["--cinit=ConstInitT", *APA_STEP], "control": ["--cinit=ConstInitF", *APA_STEP]}
+    dirs = {}
+    for name in jobs:
+        d = ctx.scratch / f"apa_{name}"
+        d.mkdir(exist_ok=True)
+        shutil.copy(ROOT / "spec" / "GatewayNewest.tla", d / "GatewayNewest.tla")
+        src = (ROOT / "spec" / "MC_GatewayNewest.tla").read_text()
+        if "Gen(3)" not in src:
+            raise MachineryError("history bound not found in spec/MC_GatewayNewest.tla")
+        (d / "MC_GatewayNewest.tla").write_text(src.replace("Gen(3)", f"Gen({bound})"))
+        dirs[name] = d
+    with ThreadPoolExecutor(max_workers=3) as tp:
+        res = dict(zip(jobs, tp.map(lambda n: _apalache(dirs[n], jobs[n]), jobs)))
+    if not res["base"][0]:
+        ctx.violate("apalache:Init_does_not_establish_NIndInv", "Apalache: the initial state of spec/GatewayNewest.tla violates the "
+                    "newest-report invariant", {"apalache": res["base"][1][-3000:]}, clause="ProgressIsNewest")
+    if not res["step"][0]:
+        ctx.violate("apalache:NIndInv_not_inductive", "Apalache: a report step of spec/GatewayNewest.tla leaves the newest-report "
+                    "invariant (for some time stamps / values)", {"apalache": res["step"][1][-3000:]}, clause="ProgressIsNewest")
+    if res["control"][0]:
+        raise MachineryError("vacuous proof: the skeleton that never records the accepted stamp is also reported inductive")
+    ctx.coverage["unbounded_newest_proof"] = {
+        "tool": "apalache-mc 0.58 (SMT, inductive: NInit => NIndInv, NIndInv /\\ NNext => NIndInv' /\\ ShowsNewest')",
+        "quantified_over": f"every time stamp in Nat, every integer progress value, 2 jobs, every state satisfying NIndInv with up to "
+                           f"{bound} recorded reports per job",
+        "negative_control": "skeleton without the write of last_seen (code before fix 72e2b3d) is rejected",
+        "wall_s": round(time.time() - t0, 1),
+        "link": "TLC property NewestRefines: spec/Gateway.tla refines spec/GatewayNewest.tla",
+    }
+    ctx.log(f"apalache: newest-report invariant inductive on GatewayNewest (base, step, control; history bound {bound}) in {time.time()-t0:.0f}s")
 REPLAY = r'''
 import sys, json, warnings, logging
 warnings.filterwarnings("ignore"); logging.disable(logging.CRITICAL)
@@ -48,9 +119,9 @@ def consts(slots, ts):
 
 def run(ctx):
     logging.disable(logging.CRITICAL)
-    cfg = tlc.cfg_text(spec="Spec", constants=consts(2, 3 if ctx.quick else 4), invariants=INV, view="view")
-    d = tlc.stage(ctx.scratch, "mc", ["Gateway"], {"Gateway.cfg": cfg})
-    r = tlc.check(d, "Gateway", workers=6, coverage=True, deadlock=False, timeout=1800, light=False)
+    cfg = tlc.cfg_text(spec="Spec", constants=consts(2, 3 if ctx.quick else 4), invariants=INV, properties=["NewestRefines", "AnswersStep"], view="view")
+    d = tlc.stage(ctx.scratch, "mc", ["Gateway", "GatewayNewest"], {"MC.tla": MC_REFINE, "MC.cfg": cfg})
+    r = tlc.check(d, "MC", workers=6, coverage=True, deadlock=False, timeout=1800, light=False)
     tlc.require_clean(r, "Gateway")
     for v in r.violated:
         ctx.violate(f"model:{v}", f"TLC: {v} violated in spec/Gateway.tla", {"tlc": r.trace[:6000]}, clause=v)
@@ -86,5 +157,6 @@ def run(ctx):
                 "real JSON requests, comparing progress, results, socket registration and every response",
     })
     ctx.sample({"behaviour": reps[0]["actions"][:10]})
+    inductive(ctx)
     ctx.assumptions += ["two progress reports of one job with equal timestamps carry the same progress (timestamps come from "
                         "one monotonic clock per controller)", "sockets, poller and subprocess spawning are harness fakes"]
